@@ -322,8 +322,22 @@ def run_tui(ctx, rng, n):
         ui = TerminalUI(s.ctl, s.ctl, input_func)
         case = {'tui_commands': cmds}
         ctx.ev()
+        via_main = i % 4 == 0
         try:
-            ui.run_until_stopped()
+            if via_main:
+                # the way file mode really gets there: main.file_input_main(path, ...) loads the file, then prompts
+                import main as main_mod
+                import tempfile, os
+                fd, path = tempfile.mkstemp(prefix='verif-c10-', suffix='.log')
+                os.write(fd, b'[1.000]  -> wl_display@1.get_registry(new id wl_registry@2)\n')
+                os.close(fd)
+                try:
+                    main_mod.file_input_main(path if i % 8 else path + '.missing', s.output, s.cm, s.ctl, s.ctl, input_func)
+                finally:
+                    os.unlink(path)
+                ctx.count('prompts_through_file_input_main')
+            else:
+                ui.run_until_stopped()
         except EOFError:
             ctx.violation('prompt-count', 'the prompt did not stop at command %d %r of %r' % (stop_at, cmds[stop_at], cmds), case)
             continue
